@@ -13,6 +13,8 @@ EXPLANATION = (
     "VarInt::MAX, and every struct field named max_field_section_size is initialised by pure flow from the builder's "
     "value; (d) header-too-long outcomes are never connection-fatal: the server answers 431 through send_response, the "
     "client sends STOP_SENDING(H3_REQUEST_CANCELLED) for responses and trailers. The arithmetic inside len() is trusted.")
+# every anchor of these rules lives in the h3 crate: thorough tier repeats them on the feature-less build
+EXTRA_CONFIGS = ["h3-plain"]
 RULES = "C10-a size accounting (A4/A6); C10-b comparisons and limit provenance (A5/A4/A2); C10-c defaults and local-limit flow (A4/A11); C10-d outcomes (A3)"
 
 Q = "h3::qpack::"
